@@ -3,8 +3,8 @@
    Model: Cache/PCache.v (internal/caching/pcache.go), Cache/LoadMap.v (loader.LoadMany -> Load);
    constants from Gen/CacheConsts.v (regenerated from the source on every run). *)
 From Coq Require Import NArith List.
-From SV.Gen Require Import CacheConsts LoaderMap EncCacheKey.
-From SV.Cache Require Import PCache PCacheProofs LoadMap C09Model Served C09Thm.
+From SV.Gen Require Import CacheConsts LoaderMap EncCacheKey ResolverUse.
+From SV.Cache Require Import PCache PCacheProofs LoadMap C09Model Served C09Thm ResolverCache.
 Import ListNotations.
 Open Scope N_scope.
 
@@ -116,3 +116,29 @@ Example C09_served_type_only_key_refuted :
   option_map snd (run [HFind 1 false; HFind 1 true]) = Some [Some 2; Some 2] /\
   expected compile [HFind 1 true; HFind 1 false] = [Some 3; Some 2].
 Proof. exact served_type_only_key_refuted. Qed.
+
+(* THE FIELD-RESOLUTION CACHE (internal/resolver.fieldCache): one shared field list per struct type, handed to every compilation
+   of every codec that contains the type.  For every history of ResolveStruct calls and compilations (any types, any order, any
+   compile options - a compilation may do to the entry whatever the SOURCE lets it do: Gen/ResolverUse.v lists every syntactic
+   write through the returned slice, there is none), every lookup returns exactly `fields k`, the pure resolveFields of the type:
+   what a codec is compiled from never depends on what was compiled before.  (Seeded C09-b1 - EncOnlyOmitNull clearing F_omitempty
+   in the shared entry - makes `writers_exist` true and this proof fail; C09_resolver_writer_refuted shows why it matters.) *)
+Theorem C09_resolver_stable : forall (ty : Type) (ty_eqb : ty -> ty -> bool),
+  (forall a b, ty_eqb a b = true <-> a = b) ->
+  forall (fl : Type) (fields : ty -> fl) (h : list (rop ty fl)),
+    snd (rrun ty ty_eqb fl fields writers_exist (fun _ => None) h) = map (fun o => fields (op_key ty fl o)) h.
+Proof. exact resolver_stable. Qed.
+Print Assumptions C09_resolver_stable.
+
+(* where the shared list leaves the compilers (both callees only read it), and that all three callers were analysed *)
+Theorem C09_resolver_escapes_pinned :
+  escapes = expected_escapes /\ resolver_callers = 3%nat.
+Proof. exact resolver_escapes_pinned. Qed.
+
+Example C09_resolver_hypothesis_satisfiable : forall a b, Nat.eqb a b = true <-> a = b.
+Proof. exact PeanoNat.Nat.eqb_eq. Qed.
+
+Example C09_resolver_writer_refuted :
+  let fields := fun (_ : nat) => 7%nat in
+  snd (rrun nat Nat.eqb nat fields true (fun _ => None) [HCompile nat nat 1%nat (fun _ => 0%nat); HResolve nat nat 1%nat]) = [7%nat; 0%nat].
+Proof. exact resolver_writer_refuted. Qed.
